@@ -756,6 +756,21 @@ def foreign(ctx, d, pgpy, names, pws):
         case = {'suite': 'foreign', 'key': n, 'usage': u, 'spec': 0, 'cipher': a, 'hash': h, 'count': 0, 'pw': pw_json(pw), 'forms': fs}
         guarded(ctx, suite, case, check_foreign, ctx, d, pgpy, suite, case, plain, orig)
         ctx.case(suite, (n, u, 0, 'empty'), sample={k: case[k] for k in ('key', 'usage', 'spec', 'cipher', 'hash', 'pw')})
+    # iterated S2K whose octet count is SMALLER than salt + passphrase (RFC 4880 3.7.1.3: then the whole salt + passphrase is hashed
+    # once): count code 0 = 1024 octets against passphrases of 1016 (exactly fits), 1017, 1500 and 3000 octets, code 3 = 1216 against 1300
+    for n, u, pw, count in (('ed25519', 254, 'y' * 1500, 0), ('rsa2048', 255, b'\x01' * 1017, 0), ('p256', 254, 'z' * 3000, 3),
+                            ('ed25519', 255, b'w' * 1016, 0), ('p256', 255, 'v' * 1300, 3)):
+        if n not in names:
+            continue
+        key = keypool.get(n)
+        plain = bytes(key)
+        orig = [secret_ints(pk) for pk in pkts(key)]
+        a, h = rng.choice(CIPHERS), rng.choice(S2KHASHES)
+        fs = ['S,%s,%s,3,%s,%s,%s,%s,%s' % (hn(u), hn(a), hn(h), hx(bytes(rng.randrange(256) for _ in range(8))), hn(count),
+                                            hx(bytes(rng.randrange(256) for _ in range(BLOCK[a]))), hx(pw_octets(pw))) for _ in orig]
+        case = {'suite': 'foreign', 'key': n, 'usage': u, 'spec': 3, 'cipher': a, 'hash': h, 'count': count, 'pw': pw_json(pw), 'forms': fs}
+        guarded(ctx, suite, case, check_foreign, ctx, d, pgpy, suite, case, plain, orig)
+        ctx.case(suite, (n, u, 3, 'count-below-passphrase', count, len(pw)), sample={k: case[k] for k in ('key', 'usage', 'spec', 'cipher', 'hash', 'count')})
     # legacy usage octet (RFC 4880 5.5.3: the usage octet IS the cipher id; key = MD5 simple S2K; 16-bit checksum inside the
     # ciphertext): written by the model with AES128 / CAST5 / AES256, read by PGPy -- loaded locked, exported identically, wrong
     # passphrase refused, unlocked, used, re-protected (8563c06)
